@@ -101,6 +101,7 @@ def run(ctx):
             ctx.undischarged.append("harness handle campaign crashed: " + out[-300:])
             break
         stat, h, oracle = C.parse_stats(out)
+        oracle = [m for m in oracle if ": refused " not in m]   # refusals are C10's
         for k, v in h.items():
             hist[k] = hist.get(k, 0) + v
         total_scripts += stat.get("scripts", 0)
